@@ -144,7 +144,11 @@ def run_case(spec, ctx):
             dirn = d / dist if dist > 1e-9 else np.array([1.0, 0, 0])
             mover.q0[:3] = mover.q0[:3] + sgn * (want - dist) * dirn
             con = Sphere2Sphere(subs[0], subs[1], r1, r2, mu, e_N=e_N, e_F=e_F)
-            system.add(*subs, con)
+            if rng.random() < 0.5:
+                system.add(*subs, con)
+            else:
+                system.add(subs[1], subs[0], con)          # subsystem 2 of the contact comes first in the System
+                ctx.cls("s2s:subsystems_added_in_reverse_order")
             params = {"contact": "Sphere2Sphere", "carriers": parts[1:], "r1": r1, "r2": r2, "mu": mu}
         try:
             system.assemble(options=gen.no_cic_options())
